@@ -236,7 +236,9 @@ def run(ctx, res):
                     for pk in rng.sample(["X-P", "LANGUAGE", "CN", "ALTREP", "X-Q", "x-lower"], rng.randrange(1, 4)):
                         params[pk] = rng.choice(["v", "a b", "x,y", ["a", "b"], "http://u/?q=1", None,
                                                  # blanks other than SPACE at the ends (they do not force quoting)
-                                                 "\tTabbed", "\u00a0nbsp", "\u3000\u5c71\u7530", "end\u2003", ["\u00a0a", "b\t"]])
+                                                 "\tTabbed", "\u00a0nbsp", "\u3000\u5c71\u7530", "end\u2003", ["\u00a0a", "b\t"],
+                                                 # punctuation that some escaping scheme gives a meaning to
+                                                 "2^10", ["a^b", "c"], ["x^^y", "^n"], "50%", "a'b"])
                 U = name.upper()
                 if U in per_name and per_name[U][0] != kind:
                     continue        # one kind per name keeps the expected value list simple
